@@ -10,12 +10,14 @@ import (
 
 func init() {
 	Registry["C15"] = Spec{
-		Pkgs: map[string][]string{"v2": {"resolve", "ast", "gqlds", "httpclient"}},
+		Pkgs: map[string][]string{"v2": {"resolve", "ast", "gqlds", "httpclient", "astnorm"}},
 		Run:  runC15,
 		Explanation: "Decides the structural half of 'an omitted variable stays omitted and every literal kind is converted': every function that renders request input with InputTemplate.RenderAndCollectUndefinedVariables passes one and the same collector at all its render sites and applies exactly that collector to the same buffer (SetInputUndefinedVariables) on every path before the buffer becomes the request input — or consumes the collector itself (the per-variable omission of multi-entity entries); " +
 			"the template renderer reports a context variable as undefined exactly on its missing-value edge and records it in the collector; the literal→JSON writer, the value copier and the printer cover all nine value kinds or fail loudly. " +
 			"It does not decide character-level equality of literals and JSON nor validity of the variables object for all spellings (value level).",
 		Mutants: []Mutant{
+			{Name: "a null default of a list variable is wrapped into a list (reverts the F83 fix)", File: "v2/pkg/astnormalization/variables_default_value_extraction.go", Rule: "C15-R6", Key: "variablesDefaultValueExtractionVisitor.EnterVariableDefinition/null-never-wrapped",
+				Old: " && valueBytes[0] != '[' && !bytes.Equal(valueBytes, literal.NULL) {", New: " && valueBytes[0] != '[' && !bytes.Equal(valueBytes, nil) {"},
 			{Name: "variables view falls back to the canonical name after a remap miss (seeded change C15-21)", File: "v2/pkg/engine/resolve/variables_view.go", Rule: "C15-R5", Key: "VariablesView.Get/remap-consulted-before-lookup",
 				Old: "\tval := v.variables.Get(head)\n", New: "\tval := v.variables.Get(head)\n\tif val == nil && head != path[0] {\n\t\tval = v.variables.Get(path[0])\n\t}\n"},
 			{Name: "subscription start forwards the variables as rendered (the repaired defect F16)", File: gqldsGo, Rule: "C15-R4", Key: "SubscriptionSource.Start/removes-undefined-variables",
@@ -41,6 +43,7 @@ func init() {
 
 func runC15(r *fw.Run) {
 	defer c15EveryEntryPointUnNulls(r)
+	defer c15NullIsNeverWrappedIntoAList(r)
 	// a variable's value reaches the subgraph through VariablesView: a lookup that can fall back to a different client
 	// variable (an omitted $foo renamed to $a picking up the client's own "a") changes the value that is sent
 	defer variablesByNameOnlyThroughView(r, "C15-R5")
@@ -313,4 +316,100 @@ func c15EveryEntryPointUnNulls(r *fw.Run) {
 			"this entry point forwards the variables object as rendered: a variable the client omitted — rendered as null and listed under \"undefined\" by the resolver — reaches the subgraph as an explicit null (its sibling entry points remove it)")
 	}
 	r.Expect("C15-R4", "entry points of the GraphQL data source", n, 3)
+}
+
+// c15NullIsNeverWrappedIntoAList (R6): list input coercion turns a single value into a list of one; null stays null
+// (spec table "List Input Coercion"). Where the normalizer renders a literal to JSON and wraps the result into brackets
+// because the position is a list (the wrap is a []byte literal holding '[' in an append), the wrap is reached only
+// where the rendered bytes are known not to be null — compared, unequal, with the null literal.
+func c15NullIsNeverWrappedIntoAList(r *fw.Run) {
+	p := r.Prog
+	r.Rule("C15-R6", "where the normalizer wraps JSON rendered from a literal into list brackets, the bytes are known not to be the null literal (list input coercion maps null to null)")
+	n := 0
+	for _, fi := range p.Funcs("astnorm") {
+		info := fi.Info()
+		// rendered := doc.ValueToJSON(…)
+		rendered := map[types.Object]bool{}
+		fw.WalkAll(fi.Decl.Body, func(nd ast.Node) bool {
+			as, ok := nd.(*ast.AssignStmt)
+			if !ok || len(as.Rhs) != 1 {
+				return true
+			}
+			if c, isCall := ast.Unparen(as.Rhs[0]).(*ast.CallExpr); isCall && fw.CallIs(info, c, "ast", "Document.ValueToJSON") {
+				if id, isID := as.Lhs[0].(*ast.Ident); isID && info.ObjectOf(id) != nil {
+					rendered[info.ObjectOf(id)] = true
+				}
+			}
+			return true
+		})
+		if len(rendered) == 0 {
+			continue
+		}
+		isNullLit := func(e ast.Expr) bool {
+			if fw.ConstObjOrVar(info, e) == "NULL" {
+				return true
+			}
+			arg := ast.Unparen(e)
+			if conv, isConv := arg.(*ast.CallExpr); isConv && len(conv.Args) == 1 {
+				arg = conv.Args[0]
+			}
+			v, isConst := fw.ConstVal(info, arg)
+			return isConst && strings.Trim(v, "\"") == "null"
+		}
+		ord := 0
+		in := fw.NewInterp(fi)
+		in.H = fw.Hooks{
+			Lit: func(l *ast.FuncLit, ctx fw.LitCtx, st *fw.State) fw.LitMode { return fw.LitSkip },
+			Cond: func(e ast.Expr, branch bool, st *fw.State) {
+				a := fw.Atom(info, e, branch)
+				// !bytes.Equal(rendered, NULL)  /  string(rendered) != "null"
+				if c, isCall := ast.Unparen(a.X).(*ast.CallExpr); isCall && a.Kind == "False" && len(c.Args) == 2 {
+					if fn := fw.Callee(info, c); fn != nil && fn.Name() == "Equal" {
+						for i, arg := range c.Args {
+							if id, isID := ast.Unparen(arg).(*ast.Ident); isID && rendered[info.ObjectOf(id)] && isNullLit(c.Args[1-i]) {
+								st.Set("not-null:" + id.Name)
+							}
+						}
+					}
+				}
+				if a.Kind == "Ne" && isNullLit(a.Y) {
+					fw.WalkAll(a.X, func(m ast.Node) bool {
+						if id, isID := m.(*ast.Ident); isID && rendered[info.ObjectOf(id)] {
+							st.Set("not-null:" + id.Name)
+						}
+						return true
+					})
+				}
+			},
+			Node: func(nd ast.Node, st *fw.State) {
+				as, ok := nd.(*ast.AssignStmt)
+				if !ok || len(as.Lhs) != 1 || len(as.Rhs) != 1 || !in.Final() {
+					return
+				}
+				id, isID := as.Lhs[0].(*ast.Ident)
+				if !isID || !rendered[info.ObjectOf(id)] {
+					return
+				}
+				// the wrap: an append whose first argument is a []byte literal holding '['
+				wraps := false
+				fw.WalkAll(as.Rhs[0], func(m ast.Node) bool {
+					if cl, isCL := m.(*ast.CompositeLit); isCL && len(cl.Elts) == 1 {
+						if v, isConst := fw.ConstVal(info, cl.Elts[0]); isConst && (v == "91" || v == "'['") {
+							wraps = true
+						}
+					}
+					return true
+				})
+				if !wraps {
+					return
+				}
+				n++
+				ord++
+				r.Check(st.Must("not-null:"+id.Name), "C15-R6", fi.Name()+"/null-never-wrapped#"+itoa(ord), p.Pos(as.Pos()), "the list wrap of "+id.Name+" in "+fi.Name()+" is reached only where the rendered value is not null",
+					"the JSON rendered from a literal is wrapped into list brackets without excluding null: `query($l: [Int] = null) { list(l: $l) }` sends {\"l\":[null]} instead of {\"l\":null} — a list with one null element is not what the client wrote")
+			},
+		}
+		in.Run(nil)
+	}
+	r.Expect("C15-R6", "list wraps of rendered literals in the normalizer", n, 1)
 }
